@@ -36,6 +36,14 @@ CFG_SHAPES = {
              {"entry": [], "hdr": ["entry"], "body": ["entry", "hdr"]}),
     "early": (["entry", "b1"], {"entry": ["b1", "exit"], "b1": ["exit"]},
               {"entry": [], "b1": ["entry"]}),
+    # more than two successors, a block that is its own successor, an exit reached by the third port
+    "switch3": (["entry", "b1", "b2", "b3"],
+                {"entry": ["b1", "b2", "b3"], "b1": ["exit"], "b2": ["exit"], "b3": ["exit"]},
+                {"entry": [], "b1": ["entry"], "b2": ["entry"], "b3": ["entry"]}),
+    "selfloop": (["entry", "hdr"], {"entry": ["hdr"], "hdr": ["hdr", "exit"]},
+                 {"entry": [], "hdr": ["entry"]}),
+    "tri-exit": (["entry", "b1", "b2"], {"entry": ["b1", "b2", "exit"], "b1": ["b2"], "b2": ["exit"]},
+                 {"entry": [], "b1": ["entry"], "b2": ["entry"]}),
 }
 
 
@@ -796,13 +804,15 @@ class ProgGen:
                 ws = self.goal_row(ch, ins[ss[0]])
                 blk["branch"] = {"kind": "unit"}
                 blk["others"] = ws
-            elif ins[ss[0]] == ins[ss[1]] and r.random() < 0.8:
+            elif len(ss) == 2 and ins[ss[0]] == ins[ss[1]] and r.random() < 0.8:
                 ws = self.goal_row(ch, [BOOL, *ins[ss[0]]])
                 blk["branch"] = {"kind": "wire", "w": ws[0]}
                 blk["others"] = ws[1:]
             else:
-                tag = r.randrange(2)
-                rows = [ins[ss[0]], ins[ss[1]]]
+                tag = r.randrange(len(ss))
+                rows = [ins[s_] for s_ in ss]
+                if len(ss) > 2:
+                    self.feat("cfg-3-way-branch")
                 ws = self.goal_row(ch, rows[tag])
                 ctl = self.wire(["sum", rows])
                 ch.stmts.append({"s": "op", "id": self.nid(), "op": ["Tag", tag, rows], "args": ws,
